@@ -117,7 +117,7 @@ def make_item(rng, ncalls):
 def items(ctx):
     q = ctx.quick
     rng = ctx.rng("c20")
-    out = [make_item(rng, rng.randint(4, 8)) for _ in range(400 if q else 8000)]
+    out = [make_item(rng, rng.randint(4, 8)) for _ in range(1000 if q else 8000)]
     for k, it in enumerate(out):
         it["id"] = "c20-%d" % k
     return out
